@@ -11,6 +11,14 @@ def sha(prefix):
     raise SystemExit("no commit with subject prefix: " + prefix)
 
 FIXED = [
+ ("KF-C15-1", "C15", "C15-stream-search-without-params", "fix: remote stream_search without search params",
+  "'stream_search <id>' for an existing stream without a JSON body panicked (params.split_once(' ').unwrap()) and killed the connection thread", None),
+ ("KF-C15-2", "C15", "C15-one-pass-stream-after-drain", "fix: remote rejects new streams in one_pass_streams mode",
+  "with collect:'one_pass_streams', a stream/query created after messages had been drained (open, resume, then stream) made process_file_context underflow 'processed_len - drained' (panic, connection thread dies)",
+  "replays/examples/C15-one-pass-stream-after-drain.json"),
+ ("KF-C15-3", "C15", "C15-one-pass-change-window-after-drain", "fix: remote rejects window changes and searches for one_pass",
+  "stream_change_window on a one_pass stream after its messages were drained accessed drained messages ('msg_idx - drained' underflow, panic, connection thread dies)",
+  "replays/examples/C15-one-pass-change-window-after-drain.json"),
  ("KF-C03-1", "C03", "C03-flst-announced-size-allocation", "fix: file transfer plugin limits the upfront allocation",
   "a file-transfer announcement (FLST) with corrupt package count x package size made the plugin panic with 'attempt to multiply with overflow' / 'capacity overflow', request gigabytes for a 128-byte input, or abort the process on a failed terabyte allocation", None),
  ("KF-C03-2", "C03", "C03-verbose-ctrl-response-short-first-arg", "fix: don't panic on ctrl response msgs",
